@@ -111,6 +111,18 @@ Model(r) ==     \* [f |-> new forest, ok |-> the logged result is the one layer 
                           /\ IF FSub(f0, hv) = <<>> \/ KindOf(f0, hv) = "A" THEN r.res.seq = [i \in 1..Len(s) |-> s[i].v]
                              ELSE {<<r.res.seq[2 * i - 1], r.res.seq[2 * i]>> : i \in 1..(Len(s) \div 2)} =
                                   {<<s[2 * i - 1].v, s[2 * i].v>> : i \in 1..(Len(s) \div 2)}]
+    [] r.ev = "NIterMut" ->   \* C13 / C10: every element yielded exactly once although every child array met was mutated (and
+                              \* possibly moved out of the parent's slab) inside the callback; each child got exactly its element
+         LET s == FSub(f0, hv)
+             RECURSIVE App(_, _)
+             App(f, i) == IF i > Len(r.pairs) THEN f
+                          ELSE LET cv == r.pairs[i][1] IN
+                               App(FRepl(f, cv, FSub(f, cv) \o <<[c |-> "s", w |-> 0, v |-> r.pairs[i][2], ti |-> "", sub |-> <<>>]>>), i + 1) IN
+         [f |-> App(f0, 1),
+          ok |-> r.res.class = "ok" /\ Len(r.res.seq) = Len(s)
+                 /\ IF KindOf(f0, hv) = "A" THEN r.res.seq = [i \in 1..Len(s) |-> s[i].v]
+                    ELSE {<<r.res.seq[2 * i - 1], r.res.seq[2 * i]>> : i \in 1..(Len(s) \div 2)} =
+                         {<<s[2 * i - 1].v, s[2 * i].v>> : i \in 1..(Len(s) \div 2)}]
     [] r.ev = "NRej" ->      \* C18: out-of-range index / absent key: the named error with the caller-mistake category, nothing changes
          [f |-> f0, ok |-> IF KindOf(f0, hv) = "A" THEN r.res.class = "IndexOutOfBounds" /\ r.res.cat = "user"
                            ELSE r.res.class = "KeyNotFound" /\ r.res.cat = "user"]
